@@ -254,7 +254,7 @@ static std::string exec(const std::vector<std::string>& t) {
         else if (o == "assign") p = g_params[std::atoi(t[3].c_str())];
         else if (o == "safea") p.safe_assign(std::move(g_params[std::atoi(t[3].c_str())]));
         else if (o == "fromurl" && !g_url[std::atoi(t[3].c_str())].is_valid()) r = "?";
-        else if (o == "fromurl") { upa::url_search_params c(g_url[std::atoi(t[3].c_str())].search_params()); p = c; }
+        else if (o == "fromurl") { upa::url_search_params c(g_url[std::atoi(t[3].c_str())].search_params()); p = c; c.append("copy", "edited"); c.sort(); }
         else r = "?";
         if (op == "sp" && !g_url[k].is_valid()) r = "?";
         if (op == "sp") return "r=" + r + " " + public_dump(g_url[k]) + (g_url[k].is_valid() ? " sp=" + pairs_str(p) : std::string(" sp=?"));
@@ -360,8 +360,91 @@ static std::string exec(const std::vector<std::string>& t) {
 }
 
 #ifndef UPA_VERIF_NO_MAIN
-int main() {
+// ---- C18: observations made DURING STATIC INITIALISATION.  This translation unit comes first on the link line, so the
+// object below (defined last in it) is constructed before any namespace-scope object of the library's own translation
+// units: whatever the library initialises dynamically in SOME configuration (a table filled by a constructor, a
+// constant computed by a non-constexpr function) is still zero here.  The same script is run again from main() and the
+// two transcripts must be identical: a program with a namespace-scope upa::url sees the same library as one that
+// parses in main(), in every language mode.
+static std::string early_units(const std::string& bytes) {
+    if (bytes.empty()) return "-";
+    static const char* d = "0123456789abcdef";
+    std::string s;
+    for (std::size_t i = 0; i < bytes.size(); ++i) { unsigned char c = static_cast<unsigned char>(bytes[i]); if (i) s += ','; if (c >> 4) s += d[c >> 4]; s += d[c & 15]; }
+    return s;
+}
+static std::string early_line(const std::string& fmt, const std::string& a = std::string(), const std::string& b = std::string()) {
+    std::string r;
+    for (std::size_t i = 0; i < fmt.size(); ++i) { if (fmt[i] == '$') r += early_units(a); else if (fmt[i] == '&') r += early_units(b); else r += fmt[i]; }
+    return r;
+}
+static std::string early_script() {
+    std::vector<std::string> L;
+    L.push_back("case");
+    const char* urls[] = { "HTTP://Example.COM:80/a/../b?q#f", "https://EX%41MPLE.org:443/%7Ex/./y", "ws://H:80/x y", "wss://h:443/?a b", "ftp://u:p@H:21/a;type=i",
+        "file:///C|/dir/../x", "file://LocalHost/etc", "foo://H:80/a/../b", "foo:opaque path ?q#f", "http://0x7f.1/", "http://[1:0:0:2::3]:81/", "http://b\xC3\xBC" "cher.example/\xF0\x9F\x98\x80?\xF0\x9F\x98\x80#\xC3\xA4",
+        "http://xn--bcher-kva.example./", "http://a b/", "http:/\\h\\p", "  \tjavascript:alert(1)  ", "blob:https://example.org:443/uuid", "http://h/%2e%2E/%2e/x", "http://1.2.3.4.5/", "http://256.1/" };
+    for (std::size_t i = 0; i < sizeof(urls) / sizeof(urls[0]); ++i) {
+        L.push_back(early_line("parse 0 8 $ -", urls[i]));
+        L.push_back(early_line("parse 1 8 $ s0", "../c?d#e"));
+        L.push_back("dump 1");
+    }
+    L.push_back(early_line("parse 0 8 $ -", "http://example.org/p?a=1&b=2#f"));
+    const char* sets[][2] = { {"protocol", "WSS"}, {"host", "H\xC3\x84.example:443"}, {"port", "80"}, {"pathname", "/a b/\xF0\x9F\x98\x80/../c"}, {"search", "?x y=\xF0\x9F\x98\x80&'"},
+        {"hash", "#\xC3\xA4 `"}, {"username", "u:@/"}, {"password", "p w"}, {"hostname", "0x10.0.0.1"}, {"href", "FILE:///c:/x"}, {"protocol", "http"} };
+    for (std::size_t i = 0; i < sizeof(sets) / sizeof(sets[0]); ++i) L.push_back(early_line(std::string("set 0 ") + sets[i][0] + " 8 $", sets[i][1]));
+    L.push_back(early_line("parse 0 8 $ -", "http://h/?b=2&a=1"));
+    L.push_back("sp 0 get");
+    L.push_back(early_line("sp 0 append 8 $ 8 &", "\xF0\x9F\x98\x80 k", "\xEF\xBC\xA1~*-._ +%&=\x7F\x80\xFF"));
+    L.push_back("sp 0 sort");
+    L.push_back("dump 0");
+    std::string all; for (int c = 1; c < 256; ++c) all += static_cast<char>(c);
+    L.push_back(early_line("psp 0 ctor 8 $", "a=" + all.substr(0, 0x25) + all.substr(0x26, 0x5A)));
+    L.push_back(early_line("psp 0 append 8 $ 8 &", "n", all));
+    L.push_back("psp 0 str");
+    const char* encsets[] = { "fragment", "query", "squery", "path", "rawpath", "posixpath", "userinfo", "component" };
+    for (std::size_t i = 0; i < sizeof(encsets) / sizeof(encsets[0]); ++i) L.push_back(early_line(std::string("penc ") + encsets[i] + " 8 $", all));
+    L.push_back(early_line("pdec 8 $", "%41%zz%C3%A4%FF%"));
+    const char* members[] = { "fragment", "query", "squery", "path", "rawpath", "posixpath", "userinfo", "component", "fhost", "fdomain", "hex", "ipv4char", "scheme", "asciidomain", "digit", "alpha", "encbyte" };
+    for (std::size_t i = 0; i < sizeof(members) / sizeof(members[0]); ++i)
+        for (int c = 0; c < 256; c += 1) { char b[8]; std::snprintf(b, sizeof b, "%x", c); L.push_back(std::string("member ") + members[i] + " " + b); }
+    L.push_back(early_line("ipv4 $", "0x7f.0.0.1")); L.push_back(early_line("ipv4 $", "1.2.3.256"));
+    L.push_back(early_line("ipv6 $", "1:2::3:4.5.6.7")); L.push_back("ipv6ser 1,0,0,0,2,0,0,3"); L.push_back("ipv4ser 2130706433");
+    L.push_back(early_line("host 8 $", "EX\xC3\x84MPLE.com")); L.push_back(early_line("host 8 $", "[::1.2.3.4]")); L.push_back(early_line("host 8 $", "a%00b"));
+    L.push_back(early_line("frompath posix 8 $", "/a b/%41/\xC3\xA4?#")); L.push_back(early_line("frompath windows 8 $", "\\\\srv\\share\\x|y"));
+    L.push_back(early_line("parse 0 8 $ -", "file:///C:/a%20b/x")); L.push_back("topath windows 0"); L.push_back("topath posix 0");
+    std::string out;
+    for (std::size_t i = 0; i < L.size(); ++i) {
+        std::string r;
+        try { r = exec(split(L[i])); }
+        catch (const upa::url_error&) { r = "EXC:url_error"; }
+        catch (const std::exception& e) { r = std::string("EXC:") + typeid(e).name(); }
+        out += L[i] + " => " + r + "\n";
+    }
+    exec(split("case"));
+    return out;
+}
+struct EarlyObs { std::string text; EarlyObs() : text(early_script()) {} };
+static EarlyObs g_early;   // LAST namespace-scope object of the first translation unit on the link line
+
+int main(int argc, char** argv) {
     std::ios::sync_with_stdio(false);
+    if (argc > 1 && std::string(argv[1]) == "--early-dump") { std::cout << g_early.text; return 0; }
+    if (argc > 1 && std::string(argv[1]) == "--early") {
+        const std::string late = early_script();
+        std::size_t n = 0, i = 0, j = 0; int bad = 0;
+        while (i < late.size() || j < g_early.text.size()) {
+            std::size_t e1 = late.find('\n', i), e2 = g_early.text.find('\n', j);
+            if (e1 == std::string::npos) e1 = late.size();
+            if (e2 == std::string::npos) e2 = g_early.text.size();
+            const std::string a = late.substr(i, e1 - i), b = g_early.text.substr(j, e2 - j);
+            ++n;
+            if (a != b && bad++ < 3) std::cout << "EARLY-DIFF from main(): " << a.substr(0, 400) << "\n           static init: " << b.substr(0, 400) << "\n";
+            i = e1 + 1; j = e2 + 1;
+        }
+        std::cout << "early operations=" << n << " differing=" << bad << "\n";
+        return bad ? 1 : 0;
+    }
     std::string line;
     while (std::getline(std::cin, line)) {
         const std::vector<std::string> t = split(line);
